@@ -130,6 +130,15 @@ check("C12", "model_checking",
       "Trusted: the set shim (mc/nd.py) models hash-order nondeterminism as permutations reachable by <= d reversals/swaps/rotations per run; set comprehensions exist only in find_all_files, which is wrapped; clock pinned; dot stubbed in-process.",
       "systematic schedule exploration (deviation-bounded) over owned nondeterminism with a byte-equality oracle", "DESIGN.md 5/C12")
 
+check("C19", "fault_enumeration",
+      "A sandbox tree (project, sources, pages, media, css, favicon, mathjax config, unrelated sibling directory, symlinks) x 11 placements of output_dir/graph_dir "
+      "(sibling, nested new, elsewhere, ../, through a symlink, inside a source directory, stale output, equal to / parent of a source directory, source symlinked into the output) "
+      "x 9 option sets that copy or write. The real front end (load_settings, parse_arguments, main) runs in-process under a sys.addaudithook hook that records every "
+      "file-system-mutating operation and, for the fault runs, fails the k-th one with OSError for EVERY k = 1..N. Oracle: all mutating events inside the resolved output/graph "
+      "directories; hash+mode snapshot of everything else unchanged after the run (failed or not); refusal before the first mutating event when a source directory lies in the output directory.",
+      "Trusted: the audit-hook event classification and the snapshot in checks/c19.py; interpreter byte-code writes are excluded; inline graphs use a stubbed dot. One harmless attempted mkdir (project-level copy_subdir) is a listed known finding.",
+      "exhaustive fault injection at every mutating file-system event (audit hook) + outside-tree snapshot oracle", "DESIGN.md 5/C19")
+
 ALL = [f"C{i:02d}" for i in range(1, 21)]
 PENDING_REASON = "check not built yet in this round (planned: see DESIGN.md section 5); will be claimed once its exhaustive check exists"
 
